@@ -614,26 +614,18 @@ impl<F: Read + Write + Seek> Package<F> {
                 );
             }
         }
-        self.insert_rows(
-            Insert::into(COLUMNS_TABLE_NAME).rows(
-                columns
-                    .iter()
-                    .enumerate()
-                    .map(|(index, column)| {
-                        vec![
-                            Value::Str(table_name.clone()),
-                            Value::Int(1 + index as i32),
-                            Value::Str(column.name().to_string()),
-                            Value::Int(column.bitfield()),
-                        ]
-                    })
-                    .collect(),
-            ),
-        )?;
-        self.insert_rows(
-            Insert::into(TABLES_TABLE_NAME)
-                .row(vec![Value::Str(table_name.clone())]),
-        )?;
+        let columns_rows: Vec<Vec<Value>> = columns
+            .iter()
+            .enumerate()
+            .map(|(index, column)| {
+                vec![
+                    Value::Str(table_name.clone()),
+                    Value::Int(1 + index as i32),
+                    Value::Str(column.name().to_string()),
+                    Value::Int(column.bitfield()),
+                ]
+            })
+            .collect();
         let validation_rows: Vec<Vec<Value>> = columns
             .iter()
             .map(|column| {
@@ -675,12 +667,53 @@ impl<F: Read + Write + Seek> Package<F> {
                 ]
             })
             .collect();
+        // Make sure that every catalog row will be accepted before changing
+        // anything, so that a failure leaves the database unmodified.
+        let has_validation_table = table_name == VALIDATION_TABLE_NAME
+            || self.tables.contains_key(VALIDATION_TABLE_NAME);
+        {
+            let columns_table = &self.tables[COLUMNS_TABLE_NAME];
+            let mut all_valid = columns_rows.iter().all(|row| {
+                columns_table
+                    .columns()
+                    .iter()
+                    .zip(row.iter())
+                    .all(|(column, value)| column.is_valid_value(value))
+            });
+            all_valid = all_valid
+                && self.tables[TABLES_TABLE_NAME].columns()[0]
+                    .is_valid_value(&Value::Str(table_name.clone()));
+            if has_validation_table {
+                let validation_columns = make_validation_columns();
+                all_valid = all_valid
+                    && validation_rows.iter().all(|row| {
+                        validation_columns
+                            .iter()
+                            .zip(row.iter())
+                            .all(|(column, value)| column.is_valid_value(value))
+                    });
+            }
+            if !all_valid {
+                invalid_input!(
+                    "Table {:?} cannot be described in the database's catalog \
+                     tables",
+                    table_name
+                );
+            }
+        }
+        self.insert_rows(Insert::into(COLUMNS_TABLE_NAME).rows(columns_rows))?;
+        self.insert_rows(
+            Insert::into(TABLES_TABLE_NAME)
+                .row(vec![Value::Str(table_name.clone())]),
+        )?;
         let long_string_refs = self.string_pool.long_string_refs();
         let table = Table::new(table_name.clone(), columns, long_string_refs);
         self.tables.insert(table_name, table);
-        self.insert_rows(
-            Insert::into(VALIDATION_TABLE_NAME).rows(validation_rows),
-        )?;
+        if has_validation_table {
+            self.insert_rows(
+                Insert::into(VALIDATION_TABLE_NAME).rows(validation_rows),
+            )?;
+        }
         Ok(())
     }
 
